@@ -79,7 +79,7 @@ func (r *recorder) Read(p []byte) (int, error) {
 
 // NewClient wraps a connection to the proxy.
 func NewClient(conn net.Conn) *Client {
-	c := &Client{Conn: conn, QuietTimeout: 1500 * time.Millisecond, HangDeadline: 20 * time.Second}
+	c := &Client{Conn: conn, QuietTimeout: 1500 * time.Millisecond, HangDeadline: 60 * time.Second}
 	if m, ok := conn.(*MemConn); ok {
 		c.mem = m
 		m.StallAware = true
